@@ -246,7 +246,11 @@ func evalDepth(w *World, req ExecReq, h *Hooks, depth int, outerExpr string) (n 
 	if verr != nil {
 		return Norm{Err: true, Panic: true, Text: "FOREIGN NODE: " + verr.Error()}
 	}
-	return Norm{Val: v}
+	n = Norm{Val: v}
+	if v.Type != "nodeset" {
+		n.Rendered = res.String()
+	}
+	return n
 }
 
 func MapsDiffer(nsBefore, nsAfter map[string]string, varsBefore, varsAfter map[xsel.XmlName]xsel.Result) string {
